@@ -97,6 +97,8 @@ def curated():
     # 20. deny on enum variants with no accessor above them: the absent-variant check precedes the variant's deny
     out.append(ST("C20", [F("e", EN("C20e", [V("A", L(6)), V("B", L(1), deny={"OSer": 3, "ORef": 4}),
                                               V("C", ST("C20c", [F("x", L(2))]), deny={"ODe": 5, "OMut": 6})])), F("z", L(9))]))
+    # 21. RangeTo / RangeFrom on the bit-widest path (their own level costs one bit)
+    out.append(ST("C21", [F("gain", L(1)), F("below", A(4, dict(k="rangeto", t=L(6)))), F("from", A(2, dict(k="rangefrom", t=L(3))))]))
     # 13. 63 nested one-element arrays (one bit per level): max_bits is exactly the capacity of a Packed word
     t63 = L(1)
     for _ in range(63):
